@@ -32,7 +32,7 @@ ASSUMPTIONS = [
 ]
 
 ARITH = ["c*0.5+k", "jnp.sin(c)+1.0", "c+CONST", "c*c*0.25-k", "jnp.where(c>k,c,k*0.5)", "c+xrow", "c+i", "jnp.tanh(c)*2.0", "c-jnp.sum(k)",
-         "jnp.maximum(c,k)-0.5", "c*jnp.float32(0.9)+xrow*0.1", "c*0.5+i", "c*0.75-k+i"]
+         "jnp.maximum(c,k)-0.5", "c*jnp.float32(0.9)+xrow*0.1", "c*0.5+i", "c*0.75-k+i", "c+ydim", "c*0.5-ydim"]
 CONST = np.array([0.25, -1.0, 2.0], np.float32)
 KINDS = ("arith", "seq", "cond", "switch2", "while", "fori", "scan_y", "scan_len", "scan2", "switch3", "scan_rev", "fori_dyn", "while_data",
          "while2", "scan_rev_len")
@@ -54,7 +54,7 @@ def body_strategy(depth, unsupported_p=40):
         st.tuples(st.just("while"), st.sampled_from(["n", "n-1", "2"]), sub).map(list),
         st.tuples(st.just("while_data"), st.sampled_from([1.5, 4.0, 0.1]), sub).map(list),
         st.tuples(st.just("fori"), st.sampled_from([[0, 0], [0, 1], [0, 3], [2, 5], [3, 3], [-3, 1], [-1, 0], [-2, 3], [-4, -2]]),
-                  st.one_of(sub, st.tuples(st.just("arith"), st.sampled_from(["c+i", "c*0.5+i", "c*0.75-k+i"])).map(list))).map(list),
+                  st.one_of(sub, st.tuples(st.just("arith"), st.sampled_from(["c+i", "c*0.5+i", "c*0.75-k+i", "c+ydim", "c*0.5-ydim"])).map(list))).map(list),
         st.tuples(st.just("scan_y"), sub).map(list),
         st.tuples(st.just("scan_len"), st.sampled_from([0, 1, 3]), sub).map(list),
         st.tuples(st.just("scan2"), sub).map(list),
@@ -82,7 +82,12 @@ def run_body(b, c, env):
             e = e.replace("+i", "+1.0")
         if "-i" in e and env.get("i") is None:
             e = e.replace("-i", "-1.0")
-        loc = dict(c=c, k=env["k"], n=env["n"], p=env["p"], jnp=jnp, CONST=jnp.asarray(CONST), xrow=env.get("xrow"),
+        if "ydim" in e:
+            # a derived dimension expression of the (possibly symbolic) sequence length, evaluated inside the body
+            yd = jnp.asarray(env["y"].shape[0] * 2 + 1).astype(c.dtype) * 0.01
+        else:
+            yd = None
+        loc = dict(c=c, k=env["k"], n=env["n"], p=env["p"], jnp=jnp, CONST=jnp.asarray(CONST), xrow=env.get("xrow"), ydim=yd,
                    i=(env.get("i").astype(jnp.float32) if env.get("i") is not None else None))
         return eval(e, loc)
     if t == "seq":
@@ -194,6 +199,9 @@ def make_fn(b, stacked):
     def fn(x, y, n, p):
         env = dict(k=y.sum(axis=0) * 0.1 + 0.5 if y.shape[0] != 0 else jnp.full((3,), 0.5), n=n, p=p, y=y)
         out = run_body(b, x, env)
+        if "ydim" in str(b):
+            # the same derived dimension expression again in the enclosing graph, after the control-flow node
+            out = out + jnp.asarray(y.shape[0] * 2 + 1).astype(out.dtype) * 0.01
         if stacked is True or stacked == "xs":
             def st_(v, row):
                 nv = v * 0.5 + row
